@@ -150,11 +150,8 @@ def insertSpecB (cs : List α) (v : α) (res : List α) [BEq α] : Bool :=
       | _, _ => false)
   else res == cs ++ [v]
 
-def noDupSigB (cs : List α) : Bool :=
-  (List.range cs.length).all (fun i => (List.range cs.length).all (fun j =>
-    match cs[i]?, cs[j]? with
-    | some a, some b => i == j || decide (sig a ≠ sig b)
-    | _, _ => true))
+/-- decided directly from the definition (quadratic in the size of the set, no indexing) -/
+def noDupSigB (cs : List α) : Bool := decide (cs.Pairwise (fun a b => sig a ≠ sig b))
 
 end Set
 
